@@ -98,6 +98,24 @@ def main():
 
     ns = {'__name__': '__main__'}
     state_before = interpreter_state()
+    # which environment variables does code of the package under test look at?  (recorded, never altered)
+    env_reads = res['env_reads'] = []
+    marker = os.sep + 'soupsieve' + os.sep
+    env_cls = type(os.environ)
+    orig_getitem = env_cls.__getitem__
+
+    def spy_getitem(self, key):
+        f = sys._getframe(1)
+        depth = 0
+        while f is not None and depth < 12:
+            if marker in f.f_code.co_filename:
+                if isinstance(key, str) and key not in env_reads:
+                    env_reads.append(key)
+                break
+            f = f.f_back
+            depth += 1
+        return orig_getitem(self, key)
+    env_cls.__getitem__ = spy_getitem
     try:
         for i, stmt in enumerate(job['program']):
             try:
@@ -116,6 +134,7 @@ def main():
         if res['ok']:
             res['probe'] = run_probe(job['probe'], res)
     finally:
+        env_cls.__getitem__ = orig_getitem
         try:
             sys.stdout.flush()
             sys.stderr.flush()
